@@ -17,16 +17,27 @@ STORE_ASSUMPTIONS = [
 
 def mc_job(name, scenario, size='s', maxanns=3, maxres=1, prelude=0, workers=8, timeout=1500, **kw):
     c = dict(MaxRes=maxres, MaxSets=1, MaxAnns=maxanns, MaxData=2, MaxKeys=2, Depth=100, Scenario=scenario, Size=size,
-             Prelude=prelude, Reads=[], DevShift=False)
+             Prelude=prelude, Reads=[], DevShift=False, EmitAll=False)
     c.update(kw)
     return dict(kind='mc', name=name, module='MC_Store.tla', constants=c, invariants=STORE_INVS, properties=['Monotone'],
                 constraint='Bounded', view='View', workers=workers, timeout=timeout)
 
 
-def gen_job(name, scenario, prelude, depth=None, simulate=None, simdepth=None, size='s', style=0, reads=(), **kw):
+def gen_job(name, scenario, prelude, depth=None, simulate=None, simdepth=None, size='s', style=0, reads=(), env=None,
+            per_state=None, sample_mod=1, **kw):
     c = dict(Scenario=scenario, Prelude=prelude, Size=size, Reads=list(reads))
     c.update(kw)
-    return dict(kind='store_gen', name=name, constants=c, depth=depth, simulate=simulate, simdepth=simdepth, style=style)
+    return dict(kind='store_gen', name=name, constants=c, depth=depth, simulate=simulate, simdepth=simdepth, style=style,
+                env=env or {}, per_state=(bool(reads) and not simulate) if per_state is None else per_state, sample_mod=sample_mod)
+
+
+def cfg_env(milestone=None, shrink=False):
+    e = {}
+    if milestone is not None:
+        e['VERIF_MILESTONE'] = str(milestone)
+    if shrink:
+        e['VERIF_SHRINK'] = '1'
+    return e
 
 
 def store_jobs(prop, tier, seed):
@@ -73,6 +84,44 @@ def store_jobs(prop, tier, seed):
     return jobs
 
 
+def offsets_jobs(tier, seed):
+    """C04: every cursor pair against every container (Annotate accept/reject + stored range + reported offsets),
+    and text selection by offset on resources, ranges and annotations."""
+    style = seed % 5
+    big = dict(MaxAnns=12, MaxRes=3)
+    jobs = [gen_job('offsets_annotate', 'offsets', 7, depth=1, style=style, reads=['anntext'], per_state=False, **big),
+            gen_job('offsets_textsel', 'offsets', 7, depth=0, style=style, reads=['offsets'], **big)]
+    if tier != 'quick':
+        jobs += [gen_job('offsets_sim', 'offsets', 7, simulate=400, simdepth=4, style=(style + 1) % 5, reads=['anntext'], sample_mod=50, **big),
+                 gen_job('offsets_textsel_ms1', 'offsets', 7, depth=0, style=style, reads=['offsets'], env=cfg_env(1), **big),
+                 gen_job('offsets_annotate_ms2', 'offsets', 7, depth=1, style=style, reads=['anntext'], env=cfg_env(2), per_state=False, **big)]
+    return jobs
+
+
+MILESTONES = [0, 1, 2, 3, 7, 100]
+
+
+def bytes_jobs(tier, seed):
+    """C12: codepoint/byte conversion on resources, ranges and annotations under every milestone interval, before and
+    after annotations populate the position index, and the C04 observations under non-default configurations."""
+    style = seed % 5
+    big = dict(MaxAnns=12, MaxRes=3)
+    jobs = []
+    for ms in MILESTONES:
+        jobs.append(gen_job(f'bytes_long_ms{ms}', 'offsets', 8, depth=0, style=style, reads=['bytes'], env=cfg_env(ms), **big))
+        jobs.append(gen_job(f'bytes_p7_ms{ms}', 'offsets', 7, depth=0, style=style, reads=['bytes', 'anntext'], env=cfg_env(ms), **big))
+    jobs.append(gen_job('bytes_hist_ms3', 'offsets', 8, simulate=40 if tier == 'quick' else 300, simdepth=3, style=style,
+                        reads=['bytes'], env=cfg_env(3), sample_mod=50, **big))
+    jobs.append(gen_job('offsets_textsel_ms1', 'offsets', 7, depth=0, style=style, reads=['offsets'], env=cfg_env(1), **big))
+    if tier != 'quick':
+        for ms in (0, 2, 7):
+            jobs.append(gen_job(f'bytes_hist_ms{ms}', 'offsets', 8, simulate=200, simdepth=4, style=style, reads=['bytes'],
+                                env=cfg_env(ms), sample_mod=50, **big))
+            jobs.append(gen_job(f'offsets_annotate_ms{ms}', 'offsets', 7, depth=1, style=style, reads=['anntext'], env=cfg_env(ms),
+                                per_state=False, **big))
+    return jobs
+
+
 STORE_RULE = ('behaviours are emitted by TLC from MC_Store.tla (every behaviour of the given depth after a fixed prelude, '
               'plus random walks in -simulate mode); each is replayed on a fresh AnnotationStore and every step is '
               'validated by TLC against Trace.tla (state, raw indices, position index, public API answers)')
@@ -81,8 +130,13 @@ STORE_RULE = ('behaviours are emitted by TLC from MC_Store.tla (every behaviour 
 def plan_for(prop, tier, seed, replay_file=None):
     if replay_file:
         return dict(jobs=[dict(kind='replay_file', file=replay_file)], rule='replay of a saved counterexample')
-    if prop in ('C01', 'C02', 'C03', 'C04', 'C10', 'C12', 'C14'):
+    if prop in ('C01', 'C02', 'C03', 'C10', 'C14'):
         return dict(jobs=store_jobs(prop, tier, seed), rule=STORE_RULE, assumptions=STORE_ASSUMPTIONS)
+    if prop == 'C04':
+        return dict(jobs=store_jobs(prop, tier, seed)[:1] + offsets_jobs(tier, seed) + store_jobs(prop, tier, seed)[1:],
+                    rule=STORE_RULE, assumptions=STORE_ASSUMPTIONS)
+    if prop == 'C12':
+        return dict(jobs=store_jobs(prop, tier, seed)[:1] + bytes_jobs(tier, seed), rule=STORE_RULE, assumptions=STORE_ASSUMPTIONS)
     raise ToolError('no plan for ' + prop)
 
 
@@ -101,20 +155,24 @@ def run_job(job, prop, tier, seed):
                                    properties=job['properties']))
     if kind == 'store_gen':
         behs, r = generate(job['name'], job['constants'], depth=job.get('depth'), simulate=job.get('simulate'),
-                           simdepth=job.get('simdepth'), seed=seed if job.get('simulate') else None)
+                           simdepth=job.get('simdepth'), seed=seed if job.get('simulate') else None,
+                           per_state=job.get('per_state', False), sample_mod=job.get('sample_mod', 1))
         if not behs:
             raise ToolError(f'generator {job["name"]} produced no behaviours')
-        trace = replay(job['name'], behs, style=job.get('style', 0))
+        trace = replay(job['name'], behs, style=job.get('style', 0), extra_env=job.get('env'))
         mism, stats = validate(job['name'], trace)
         return dict(traces_validated_against_impl=len(behs), events_validated=stats['events'] - len(behs),
                     unexamined_events=stats['skipped'], out_of_domain_events=stats['outofdomain'], mismatches=mism,
                     samples=[json.loads(behs[len(behs) // 2])],
                     generator=dict(name=job['name'], constants=job['constants'], depth=job.get('depth'), simulate=job.get('simulate'),
-                                   behaviours=len(behs), generator_states=r['distinct'], idstyle=job.get('style', 0)))
+                                   behaviours=len(behs), generator_states=r['distinct'], idstyle=job.get('style', 0),
+                                   config=job.get('env', {})))
     if kind == 'replay_file':
         rp = json.load(open(job['file']))
-        style = (rp.get('reset') or {}).get('style', 0)
-        trace = replay('replayfile', [json.dumps(rp['ops'])], style=style)
+        rs = rp.get('reset') or {}
+        style = rs.get('style', 0)
+        trace = replay('replayfile', [json.dumps(rp['ops'])], style=style,
+                       extra_env=cfg_env(rs['milestone'] if rs.get('milestone', -1) >= 0 else None, rs.get('shrink', False)))
         mism, stats = validate('replayfile', trace, nproc=1)
         return dict(traces_validated_against_impl=1, events_validated=stats['events'] - 1, mismatches=mism, samples=[rp['ops']])
     raise ToolError('unknown job kind ' + kind)
